@@ -7,6 +7,8 @@
 //              1 fan-in            s0; s1; m=ADD(s0,s1); rec0(m); n=F(s1); rec1(n)
 //              2 shared sub-expr   s; b=F(s); c=F(s) [same definition+input: interned]; d=ADD(b,c); rec0(d)
 //              3 feedback loop     s; fb=feedback(); acc=ADDU(s,fb()); fb(acc); rec0(acc); rec1(fb())
+//              4 structural input  s; sh=F(s); d1=G(s); dp=F(d1); ls=LSUM({sh, dp}) [one TSL<TS<Int>,2> input fed by a structural
+//                                  source whose two producers sit at different depths below s]; rec0(ls)
 //   symbolic : emission times of both script sources (first offset >= 0, gaps >= 1 us) and their values, start, window
 //   oracle   : per recorder identical (time, value) streams; identical node and edge counts; identical number of node
 //              evaluations in every engine cycle; identical cycle times; program 2 has exactly one F node in both orders
@@ -24,10 +26,10 @@
 #define WMAX 5
 #endif
 #ifndef NPROG
-#define NPROG 4
+#define NPROG 5
 #endif
 #ifndef PROG_MASK
-#define PROG_MASK 0xf
+#define PROG_MASK 0x1f
 #endif
 
 using namespace hk;
@@ -69,6 +71,12 @@ struct AddU {  // second input may be invalid (feedback without initial value); 
         if (a.modified()) out.set(a.value() + (b.valid() ? 3 * b.value() : Int{7}));
     }
 };
+struct LSum {  // ONE structural input with two producers
+    static constexpr auto name = "c06_lsum";
+    static void eval(In<"v", TSL<TS<Int>, 2>> v, Out<TS<Int>> out) {
+        if (v[0].valid() && v[1].valid()) out.set(v[0].value() + 5 * v[1].value());
+    }
+};
 template <int ID> struct Rec {
     static constexpr auto name = "c06_rec";
     static void eval(In<"a", TS<Int>> a, DateTime now) {
@@ -77,14 +85,15 @@ template <int ID> struct Rec {
     }
 };
 
-enum Op { SRC0, SRC1, OPF, OPG, ADD, ADDU, REC0, REC1, FB_NEW, FB_BIND, FB_READ_REC1 };
+enum Op { SRC0, SRC1, OPF, OPG, ADD, ADDU, REC0, REC1, FB_NEW, FB_BIND, FB_READ_REC1, LSUM };
 struct Stmt { Op op; int a; int b; };  // a, b: indices of the statements whose port is consumed (-1: none)
 struct Program { int n; Stmt s[MAXS]; };
-const Program PROGS[4] = {
+const Program PROGS[5] = {
     {6, {{SRC0, -1, -1}, {OPF, 0, -1}, {OPG, 0, -1}, {ADD, 1, 2}, {REC0, 3, -1}, {REC1, 1, -1}}},
     {6, {{SRC0, -1, -1}, {SRC1, -1, -1}, {ADD, 0, 1}, {REC0, 2, -1}, {OPF, 1, -1}, {REC1, 4, -1}}},
     {5, {{SRC0, -1, -1}, {OPF, 0, -1}, {OPF, 0, -1}, {ADD, 1, 2}, {REC0, 3, -1}}},
     {6, {{SRC0, -1, -1}, {FB_NEW, -1, -1}, {ADDU, 0, 1}, {FB_BIND, 1, 2}, {REC0, 2, -1}, {FB_READ_REC1, 1, -1}}},
+    {6, {{SRC0, -1, -1}, {OPF, 0, -1}, {OPG, 0, -1}, {OPF, 2, -1}, {LSUM, 1, 3}, {REC0, 4, -1}}},
 };
 
 int g_prog = 0;
@@ -111,6 +120,7 @@ struct Top {
                 case FB_NEW: fb[k] = stdlib::feedback<TS<Int>>(w); port[k] = fb[k](); break;
                 case FB_BIND: fb[st.a](port[st.b]); break;
                 case FB_READ_REC1: wire<Rec<1>>(w, fb[st.a]()); break;
+                case LSUM: port[k] = wire<LSum>(w, {port[st.a], port[st.b]}); break;
             }
         }
     }
@@ -200,6 +210,7 @@ extern "C" int harness_main() {
     if (differs) verif_reach("permuted_order"); else verif_reach("identity_permutation");
     if (total >= 2) verif_reach("two_output_ticks");
     if (g_prog == 3 && g_r[0].n[1] >= 1) verif_reach("feedback_delivered");
+    if (g_prog == 4 && g_r[0].n[0] >= 1) verif_reach("structural_input_producers_at_different_depths");
     if (g_prog == 1) {
         bool together = false;
         for (int i = 0; i < NX; i++) for (int j = 0; j < NX; j++) if (g_T[0][i] == g_T[1][j] && g_T[0][i] < g_end) together = true;
